@@ -649,7 +649,7 @@ Section HeapProofs.
     hwf (mk_hstate (Bf ++ [vals]) If Of hs) (mk_handle (mk_view (length Bf) n) None) false
         (map (fun s => (s, [])) vals).
   Proof.
-    intros <-. constructor; unfold abs_handle, view_vals, buf_of, ids_of, kind_of;
+    intros <-. constructor; unfold ids_of, abs_handle, view_vals, buf_of, kind_of;
       cbn [h_outer h_view v_buf v_len bufs inners outers].
     - rewrite nth_snoc_last, firstn_all. reflexivity.
     - rewrite map_length. reflexivity.
@@ -666,10 +666,10 @@ Section HeapProofs.
     hwf (mk_hstate (Bf ++ [vals]) (If ++ ls) (Of ++ [range_from (length If) n]) hs)
         (mk_handle (mk_view (length Bf) n) (Some (length Of))) true (combine vals ls).
   Proof.
-    intros <- Hl. constructor; unfold abs_handle, view_vals, buf_of, outer_of, inner_of, ids_of, kind_of;
+    intros <- Hl. constructor; unfold ids_of, abs_handle, view_vals, buf_of, outer_of, inner_of, kind_of;
       cbn [h_outer h_view v_buf v_len bufs inners outers].
     - rewrite !nth_snoc_last, firstn_all. rewrite <- Hl. rewrite map_nth_range_from. reflexivity.
-    - rewrite combine_length. lia.
+    - unfold bin. rewrite combine_length. lia.
     - rewrite app_length. cbn [length]. lia.
     - rewrite nth_snoc_last. lia.
     - reflexivity.
@@ -696,7 +696,8 @@ Section HeapProofs.
       rewrite repeat_length. eexists _, _. split; [reflexivity|].
       split; [|split; [reflexivity|split; [|split; [|split]]]].
       + repeat split; cbn [bufs inners outers]; eexists; reflexivity.
-      + unfold new_bins, empty_bin. rewrite <- (combine_repeat 0 (@nil A) n).
+      + replace (@new_bins A n) with (combine (repeat 0 n) (repeat (@nil A) n))
+          by exact (combine_repeat 0 (@nil A) n).
         apply fresh_contents_hwf; apply repeat_length.
       + cbn [h_view v_buf]. lia.
       + cbn [h_outer]. intros o Ho. injection Ho as <-. lia.
@@ -705,7 +706,8 @@ Section HeapProofs.
     - eexists _, _. split; [reflexivity|].
       split; [|split; [reflexivity|split; [|split; [|split]]]].
       + repeat split; cbn [bufs inners outers]; [eexists; reflexivity|exists []; rewrite app_nil_r; reflexivity..].
-      + unfold new_bins, empty_bin. rewrite <- (map_repeat' (fun s : Z => (s, @nil A)) 0 n).
+      + replace (@new_bins A n) with (map (fun s : Z => (s, @nil A)) (repeat 0 n))
+          by exact (map_repeat' (fun s : Z => (s, @nil A)) 0 n).
         apply fresh_sums_hwf; apply repeat_length.
       + cbn [h_view v_buf]. lia.
       + cbn [h_outer]. intros o Ho. discriminate.
@@ -732,7 +734,7 @@ Section HeapProofs.
       (forall o, h_outer hd' = Some o -> (length (outers st) <= o)%nat) /\
       ids_of st' hd' = ids_of st hd1 ++ ids_of st hd2.
   Proof.
-    intros W1 W2 Hdis. eexists _, _. split; [reflexivity|].
+    intros W1 W2 Hdis.
     pose proof (hwf_vals_length _ _ _ _ W1) as L1. pose proof (hwf_vals_length _ _ _ _ W2) as L2.
     pose proof (hw_kind _ _ _ _ W1) as K1. pose proof (hw_kind _ _ _ _ W2) as K2.
     pose proof (hw_abs _ _ _ _ W1) as A1. pose proof (hw_abs _ _ _ _ W2) as A2.
@@ -741,16 +743,16 @@ Section HeapProofs.
     pose proof (hw_olen _ _ _ _ W1) as O1. pose proof (hw_olen _ _ _ _ W2) as O2.
     unfold concat_handles, kind_of, abs_handle, ids_of in *.
     destruct (h_outer hd1) as [o1|] eqn:E1; destruct (h_outer hd2) as [o2|] eqn:E2;
-      try (exfalso; congruence); cbn [fst snd bufs inners outers handles].
+      try (exfalso; congruence); (eexists _, _; split; [reflexivity|]); cbn [bufs inners outers handles].
     - specialize (O1 o1 eq_refl). specialize (O2 o2 eq_refl).
       split; [|split; [reflexivity|split; [|split; [|split]]]].
       + repeat split; cbn [bufs inners outers]; [eexists; reflexivity|exists []; rewrite app_nil_r; reflexivity|eexists; reflexivity].
-      + constructor; unfold abs_handle, view_vals, buf_of, outer_of, inner_of, ids_of, kind_of;
+      + constructor; unfold ids_of, abs_handle, view_vals, buf_of, outer_of, inner_of, kind_of;
           cbn [h_outer h_view v_buf v_len bufs inners outers]; rewrite ?nth_snoc_last.
         * rewrite firstn_all, map_app. fold (inner_of st). rewrite combine_app.
           -- unfold view_vals, buf_of, outer_of in A1, A2. rewrite A1, A2. reflexivity.
           -- rewrite map_length. unfold view_vals, buf_of, outer_of in L1, O1. lia.
-        * rewrite <- A1, <- A2. rewrite !app_length, !combine_length, !map_length.
+        * rewrite <- A1, <- A2. unfold bin. rewrite !app_length, !combine_length, !map_length.
           unfold view_vals, buf_of, outer_of in *. lia.
         * rewrite app_length. cbn [length]. lia.
         * lia.
@@ -769,4 +771,148 @@ Section HeapProofs.
       + cbn [h_view v_buf]. lia.
       + cbn [h_outer]. intros o Ho. discriminate.
       + reflexivity.
+  Qed.
+
+  (** ** in-place operations: the written handle *)
+  Lemma hwf_rebuild st st' hd k b b' bb I oo :
+    hwf st hd k b -> mod_only st st' bb I oo ->
+    abs_handle st' hd = b' -> length b' = length b ->
+    length (buf_of st' (v_buf (h_view hd))) = length (buf_of st (v_buf (h_view hd))) ->
+    Permutation (ids_of st' hd) (ids_of st hd) -> hwf st' hd k b'.
+  Proof.
+    intros Hw (M1 & M2 & M3 & _) Ha Hl Hb Hp. constructor.
+    - exact Ha.
+    - rewrite Hl. apply (hw_len _ _ _ _ Hw).
+    - rewrite M1. apply (hw_buf _ _ _ _ Hw).
+    - rewrite Hb. apply (hw_fit _ _ _ _ Hw).
+    - apply (hw_kind _ _ _ _ Hw).
+    - intros o Ho. rewrite M3. apply (hw_outer _ _ _ _ Hw o Ho).
+    - intros o Ho. pose proof (hw_olen _ _ _ _ Hw o Ho) as Hlen. apply Permutation_length in Hp.
+      unfold ids_of in Hp. rewrite Ho in Hp. lia.
+    - eapply Permutation_NoDup; [symmetry; exact Hp|]. apply (hw_nodup _ _ _ _ Hw).
+    - intros i Hi. rewrite M2. apply (hw_ids _ _ _ _ Hw). eapply Permutation_in; eauto.
+  Qed.
+
+  Lemma hwf_sums_outer st hd b : hwf st hd false b -> h_outer hd = None.
+  Proof. intros H. pose proof (hw_kind _ _ _ _ H) as K. unfold kind_of in K. destruct (h_outer hd); [discriminate|reflexivity]. Qed.
+
+  Lemma hwf_contents_outer st hd b : hwf st hd true b -> exists o, h_outer hd = Some o.
+  Proof. intros H. pose proof (hw_kind _ _ _ _ H) as K. unfold kind_of in K. destruct (h_outer hd) as [o|]; [eauto|discriminate]. Qed.
+
+  (** bins[i] updated by f1 (sums manager: add_item_to_bin, combine_bins) *)
+  Lemma bump_sums st hd b i f1 :
+    hwf st hd false b -> (i < v_len (h_view hd))%nat ->
+    let st' := set_buf st (v_buf (h_view hd)) (update i f1) in
+    mod_only st st' (v_buf (h_view hd)) (ids_of st hd) (h_outer hd) /\
+    hwf st' hd false (update i (fun p => (f1 (fst p), snd p)) b) /\
+    Permutation (ids_of st' hd) (ids_of st hd).
+  Proof.
+    intros Hw Hi st'. pose proof (hwf_sums_outer _ _ _ Hw) as Ho.
+    assert (Hm : mod_only st st' (v_buf (h_view hd)) (ids_of st hd) (h_outer hd)) by apply mod_set_buf.
+    assert (Eb : buf_of st' (v_buf (h_view hd)) = update i f1 (buf_of st (v_buf (h_view hd)))).
+    { apply buf_of_set_buf_same. apply (hw_buf _ _ _ _ Hw). }
+    assert (Ei : ids_of st' hd = ids_of st hd) by (unfold ids_of; rewrite Ho; reflexivity).
+    split; [exact Hm|split; [|rewrite Ei; reflexivity]].
+    eapply hwf_rebuild; [exact Hw|exact Hm| | | |rewrite Ei; reflexivity].
+    - unfold abs_handle, view_vals. rewrite Ho, Eb, firstn_update_lt by exact Hi.
+      rewrite <- (hw_abs _ _ _ _ Hw). unfold abs_handle, view_vals. rewrite Ho.
+      apply map_update. intros s. reflexivity.
+    - apply update_length.
+    - rewrite Eb. apply update_length.
+  Qed.
+
+  (** bins[i] updated by f1 on the sum and f2 on the contents (contents manager) *)
+  Lemma bump_contents st hd b ou i inn f1 f2 :
+    hwf st hd true b -> h_outer hd = Some ou -> (i < v_len (h_view hd))%nat ->
+    nth_opt (outer_of st ou) i = Some inn ->
+    let st' := set_inner (set_buf st (v_buf (h_view hd)) (update i f1)) inn f2 in
+    mod_only st st' (v_buf (h_view hd)) (ids_of st hd) (h_outer hd) /\
+    hwf st' hd true (update i (fun p => (f1 (fst p), f2 (snd p))) b) /\
+    Permutation (ids_of st' hd) (ids_of st hd).
+  Proof.
+    intros Hw Ho Hi Hinn st'.
+    assert (Hin : In inn (ids_of st hd)) by (unfold ids_of; rewrite Ho; eapply nth_opt_In; eauto).
+    pose proof (hw_ids _ _ _ _ Hw inn Hin) as Hlt.
+    assert (Hm : mod_only st st' (v_buf (h_view hd)) (ids_of st hd) (h_outer hd)).
+    { eapply mod_only_trans; [apply mod_set_buf|apply mod_set_inner; exact Hin]. }
+    assert (Eb : buf_of st' (v_buf (h_view hd)) = update i f1 (buf_of st (v_buf (h_view hd)))).
+    { change (buf_of st' (v_buf (h_view hd))) with
+        (buf_of (set_buf st (v_buf (h_view hd)) (update i f1)) (v_buf (h_view hd))).
+      apply buf_of_set_buf_same. apply (hw_buf _ _ _ _ Hw). }
+    assert (Ei : ids_of st' hd = ids_of st hd) by reflexivity.
+    assert (Em : map (inner_of st') (outer_of st ou) = update i f2 (map (inner_of st) (outer_of st ou))).
+    { apply (map_update_nodup (inner_of st) (inner_of st') f2 (outer_of st ou) i inn).
+      - pose proof (hw_nodup _ _ _ _ Hw) as Hn. unfold ids_of in Hn. rewrite Ho in Hn. exact Hn.
+      - exact Hinn.
+      - intros j Hj. unfold st'. rewrite inner_of_set_inner_other by exact Hj. reflexivity.
+      - unfold st'. rewrite inner_of_set_inner_same by exact Hlt. reflexivity. }
+    split; [exact Hm|split; [|rewrite Ei; reflexivity]].
+    eapply hwf_rebuild; [exact Hw|exact Hm| | | |rewrite Ei; reflexivity].
+    - unfold abs_handle, view_vals. rewrite Ho, Eb, firstn_update_lt by exact Hi.
+      change (outer_of st' ou) with (outer_of st ou). rewrite Em, combine_update.
+      rewrite <- (hw_abs _ _ _ _ Hw). unfold abs_handle, view_vals. rewrite Ho. reflexivity.
+    - apply update_length.
+    - rewrite Eb. apply update_length.
+  Qed.
+
+  (** sort_by_ascending_sum, sums manager: ndarray.sort() through the view *)
+  Lemma sort_sums st hd b :
+    hwf st hd false b ->
+    let st' := set_buf st (v_buf (h_view hd)) (overwrite (sort_asc (fun x => x) (view_vals st (h_view hd)))) in
+    mod_only st st' (v_buf (h_view hd)) (ids_of st hd) (h_outer hd) /\
+    hwf st' hd false (sort_bins b) /\ Permutation (ids_of st' hd) (ids_of st hd).
+  Proof.
+    intros Hw st'. pose proof (hwf_sums_outer _ _ _ Hw) as Ho.
+    pose proof (hwf_vals_length _ _ _ _ Hw) as Lv.
+    set (sorted := sort_asc (fun x => x) (view_vals st (h_view hd))) in *.
+    assert (Ls : length sorted = v_len (h_view hd)) by (unfold sorted; rewrite sort_asc_length; exact Lv).
+    assert (Hm : mod_only st st' (v_buf (h_view hd)) (ids_of st hd) (h_outer hd)) by apply mod_set_buf.
+    assert (Eb : buf_of st' (v_buf (h_view hd)) = overwrite sorted (buf_of st (v_buf (h_view hd)))).
+    { apply buf_of_set_buf_same. apply (hw_buf _ _ _ _ Hw). }
+    assert (Ei : ids_of st' hd = ids_of st hd) by (unfold ids_of; rewrite Ho; reflexivity).
+    split; [exact Hm|split; [|rewrite Ei; reflexivity]].
+    eapply hwf_rebuild; [exact Hw|exact Hm| | | |rewrite Ei; reflexivity].
+    - unfold abs_handle. rewrite Ho. unfold view_vals. rewrite Eb, <- Ls, firstn_overwrite.
+      rewrite <- (hw_abs _ _ _ _ Hw). unfold abs_handle, sort_bins. rewrite Ho. unfold sorted.
+      apply (sort_asc_map (fun s : Z => (s, @nil A)) (fun x => x) fst). intros s. reflexivity.
+    - apply sort_bins_length.
+    - rewrite Eb. apply overwrite_length. rewrite Ls. apply (hw_fit _ _ _ _ Hw).
+  Qed.
+
+  (** sort_by_ascending_sum, contents manager: stable argsort applied to sums and lists *)
+  Lemma sort_contents st hd b ou :
+    hwf st hd true b -> h_outer hd = Some ou ->
+    let vals := view_vals st (h_view hd) in
+    let perm := sorted_perm vals in
+    let st1 := set_buf st (v_buf (h_view hd)) (overwrite (map (fun i => nth i vals 0) perm)) in
+    let st' := set_outer st1 ou (fun _ => map (fun i => nth i (outer_of st1 ou) O) perm) in
+    mod_only st st' (v_buf (h_view hd)) (ids_of st hd) (h_outer hd) /\
+    hwf st' hd true (sort_bins b) /\ Permutation (ids_of st' hd) (ids_of st hd).
+  Proof.
+    intros Hw Ho vals perm st1 st'.
+    pose proof (hwf_vals_length _ _ _ _ Hw) as Lv. fold vals in Lv.
+    pose proof (hwf_ids_length _ _ _ Hw) as Li. unfold ids_of in Li. rewrite Ho in Li.
+    assert (Lp : length perm = v_len (h_view hd)) by (unfold perm; rewrite sorted_perm_length; exact Lv).
+    assert (Hm : mod_only st st' (v_buf (h_view hd)) (ids_of st hd) (h_outer hd)).
+    { rewrite Ho. eapply mod_only_trans; [apply mod_set_buf|apply mod_set_outer]. }
+    assert (Eb : buf_of st' (v_buf (h_view hd)) =
+                 overwrite (map (fun i => nth i vals 0) perm) (buf_of st (v_buf (h_view hd)))).
+    { change (buf_of st' (v_buf (h_view hd))) with (buf_of st1 (v_buf (h_view hd))).
+      apply buf_of_set_buf_same. apply (hw_buf _ _ _ _ Hw). }
+    assert (Eo : outer_of st' ou = map (fun i => nth i (outer_of st ou) O) perm).
+    { unfold st'. rewrite outer_of_set_outer_same; [reflexivity|]. apply (hw_outer _ _ _ _ Hw ou Ho). }
+    assert (Hp : Permutation (ids_of st' hd) (ids_of st hd)).
+    { unfold ids_of. rewrite Ho, Eo. apply sorted_perm_permutes. fold vals. lia. }
+    split; [exact Hm|split; [|exact Hp]].
+    eapply hwf_rebuild; [exact Hw|exact Hm| | | |exact Hp].
+    - unfold abs_handle. rewrite Ho. unfold view_vals. rewrite Eb, Eo.
+      rewrite <- Lp at 1. rewrite <- (map_length (fun i => nth i vals 0) perm), firstn_overwrite.
+      change (inner_of st') with (inner_of st). rewrite map_map.
+      rewrite (map_ext (fun i => inner_of st (nth i (outer_of st ou) O))
+                       (fun i => nth i (map (inner_of st) (outer_of st ou)) (inner_of st O)))
+        by (intros i; symmetry; apply map_nth).
+      unfold perm. rewrite sorted_perm_combine by (rewrite map_length; fold vals; lia).
+      rewrite <- (hw_abs _ _ _ _ Hw). unfold abs_handle, sort_bins. rewrite Ho. reflexivity.
+    - apply sort_bins_length.
+    - rewrite Eb. apply overwrite_length. rewrite map_length, Lp. apply (hw_fit _ _ _ _ Hw).
   Qed.
